@@ -19,8 +19,17 @@ def norm_ws(s: str) -> str:
     return WS.sub(" ", s)
 
 
+def _pangu(t: str) -> str:
+    """the single space flowmark deliberately puts between adjacent CJK and Latin characters (allowed by C01): applied to both sides"""
+    try:
+        from marko.ext.pangu import PANGU_RE
+        return re.sub(PANGU_RE, " ", t)
+    except Exception:  # noqa: BLE001
+        return t
+
+
 def _finish_inline(out):
-    res = [("t", norm_ws(o[1])) if o[0] == "t" else o for o in out]
+    res = [("t", norm_ws(_pangu(o[1]))) if o[0] == "t" else o for o in out]
     if res and res[0][0] == "t":
         res[0] = ("t", res[0][1].lstrip())
     if res and res[-1][0] == "t":
